@@ -24,6 +24,9 @@ cnt = z3.Function("cnt", Key, Label, Int)          # key.count(i)
 negcount = z3.Function("negcount", Key, Int)       # number of members (with repetition) whose zval is -1
 lt = z3.Function("ordlt", Label, Label, Bool)      # the abstract total order standing for ordering_key
 aval = z3.Function("aval", Label, Real)
+anc = z3.Function("anc", Int, Label)               # the label '__a<n>' (constraint ancilla names)
+pow2 = z3.Function("pow2", Int, Int)              # 2 ** i
+slack = z3.Function("slack", Int, Int, Bool, Int)   # slack(a0, n, log): sum_{i<n} w_i * xval(anc(a0+i)),  w_i = 2^i (log) or 1
 matvalid = z3.Function("matvalid", Key, Bool)    # every member is a non-negative int (Matrix types' key validity)            # a second ghost assignment ("values"/"connections" maps)
 
 LEMMAS = {
@@ -33,6 +36,8 @@ LEMMAS = {
     "L3-bool-idempotent": "bmono(sorted(set(k))) == bmono(k) for x in {0,1}",
     "L4-spin-parity": "smono(sorted(odd-multiplicity members of k)) == smono(k) for z in {1,-1}",
     "L5-fold-update": "finite-sum update law: sum over d[k:=c] == sum over d - old contribution + new contribution",
+    "L6/L7-slack": "slack(a0,n,log) = sum of w_i*a_i over the n ancilla bits is an integer in [0, cap(n)], cap = 2^n - 1 (log) or n (unary); every integer in that range is attained by some setting of the bits (existence is used only at the meta level, see DESIGN 11.7)",
+    "L8-num_bits": "num_bits(v, log_trick) = n with cap(n) >= v for v >= 0",
     "sq-shape": "sq(k) is duplicate-free, sorted, idempotent, no longer than k, members(sq k) subset members(k), identity on length <= 1",
 }
 
@@ -123,6 +128,34 @@ class Facts:
                                            smono(k) == zval(k[0]) * smono(t), z3.Length(t) == n - 1,
                                            matvalid(k) == z3.And(matvalid(unit(k[0])), matvalid(t)))))
         return t
+
+    def anc_label(self, n):
+        """the label '__a%d' % n ; distinct numbers give distinct labels"""
+        e = anc(n)
+        self.label(e)
+        if not hasattr(self, "_ancs"):
+            self._ancs = []
+        for m in self._ancs:
+            self.add((anc(m) == e) == (m == n))
+        self._ancs.append(n)
+        return e
+
+    def pow2_term(self, i):
+        e = pow2(i)
+        self.add(z3.Implies(i >= 0, e >= 1))
+        self.add(z3.Implies(i == 0, e == 1))
+        self.add(pow2(i + 1) == 2 * e)
+        return e
+
+    def slack_step(self, a0, i, log):
+        """unfold slack(a0, i+1, log) = slack(a0, i, log) + w_i * xval(anc(a0+i)); bounds and integrality (L6/L7 side)"""
+        lab = self.anc_label(a0 + i)
+        w = z3.If(log, self.pow2_term(i), z3.IntVal(1))
+        cur, nxt = slack(a0, i, log), slack(a0, i + 1, log)
+        xv = xval(lab)
+        self.add(nxt == cur + z3.If(xv == 1, w, z3.IntVal(0)))     # xval(lab) in {0, 1}
+        self.add(slack(a0, z3.IntVal(0), log) == 0)
+        return nxt
 
     def sq(self, spin, k):
         """the canonical key of k (boolean: sorted set; spin: sorted odd-multiplicity members)"""
